@@ -524,27 +524,105 @@ def rec_entity(st, rec):
     return e.t if e is not None else None
 
 
+def cited_record(ex, st, prefix, entries, nrefs_var="refs", with_refs=True):
+    """a record whose generic feature carries (entries = 'strings' | 'references') or lacks ('none') a /citation list"""
+    from pyvc import models_cit as MC
+    from pyvc.values import VRepList
+    rec = VObj("CircularRecord")
+    refs = tm.V(prefix + "." + nrefs_var, SEQI)
+    ann = VDict(new_oid())
+    st.set_inplace(ann, "items", {"references": VT(refs, "list")} if with_refs else {})
+    st.set_inplace(rec, "annotations", ann)
+    f = VObj("SeqFeature")
+    info = dict(refs=refs, feature=f)
+    if entries == "none":
+        q = MC.mk_qualdict(st)
+    else:
+        if entries == "strings":
+            text, qn = tm.V(prefix + ".cit", STR), tm.V(prefix + ".q", INT)
+            rep = VT(text)
+            info.update(text=text, q=qn)
+        else:
+            rid = tm.V(prefix + ".ref", INT)
+            rep = MC.mk_reference(st, rid)
+            info.update(ref=rid)
+        cl = MC.mk_citlist(st, rep, tm.V(prefix + ".ncit", INT))
+        q = MC.mk_qualdict(st, cl)
+        info.update(citlist=cl, rep=rep)
+    st.set_inplace(f, "qualifiers", q)
+    st.set_inplace(rec, "features", VRepList(f, tm.V(prefix + ".nfeat", INT)))
+    info["record"] = rec
+    return info
+
+
 class DerefCitations(Contract):
-    """ASSUMED at this level (trusted_body): every bracketed index of every citation qualifier of the record is
-    replaced by the reference it denotes.  Effect on the cells: CIT[e] := D(CIT[e], REFS[e])."""
+    """every bracketed index of every citation qualifier of the record is replaced by the reference it denotes
+    (entries that already are references are left alone).  Verified on the pointwise model (generic feature, generic
+    entry); at call sites in assemble() the effect is named abstractly: CIT[e] := D(CIT[e], REFS[e])."""
     file, qual = FILE, "AssemblyManager._deref_citations"
-    props = ("C07", "C10")
-    trusted_body = True
+    props = ("C10", "C07")
+    variants = ("cited-strings", "cited-references", "no-citation", "no-reference-list")
 
     def setup(self, ex, st, variant):
-        mgr, v, M = mk_manager(ex, st)
-        init_cells(ex, st)
-        e = abstract_entity(st, "AbstractModule", tm.V("e", INT))
-        return dict(self=mgr, record=st.get(e, "record"))
+        ex.models.elem_kind = "Reference"
+        mgr = VObj("AssemblyManager")
+        kind = {"cited-strings": "strings", "cited-references": "references", "no-citation": "none", "no-reference-list": "none"}[variant]
+        self.info = cited_record(ex, st, "rec", kind, with_refs=(variant != "no-reference-list"))
+        return dict(self=mgr, record=self.info["record"])
+
+    def requires(self, ex, st, a):
+        info = getattr(self, "info", None)
+        if info is None or rec_entity(st, a["record"]) is not None or "text" not in info:
+            return []
+        # well-formed citations (GenBank bracketed 1-based index of an existing reference)
+        return [("citation-is-a-bracketed-index-of-an-existing-reference",
+                 tm.and_(tm.eq(info["text"], tm.concat("[", tm.str_of_int(info["q"]), "]")), tm.le(1, info["q"]),
+                         tm.le(info["q"], tm.seqlen(info["refs"]))))]
+
+    def assumes(self, ex, st, a):
+        info = getattr(self, "info", None)
+        if info is None or rec_entity(st, a["record"]) is not None or "text" not in info:
+            return []
+        from pyvc import models_cit as MC
+        return MC.canonical_citation(info["text"], info["q"])[2:] + [
+            tm.eq(tm.T("str.to_int", (tm.str_of_int(info["q"]),), INT), info["q"])]
+
+    def ensures(self, ex, pre, st, a, result):
+        if rec_entity(pre, a["record"]) is not None:
+            return []
+        info = self.info
+        f = info["feature"]
+        q = st.get(f, "qualifiers")
+        out = [("qualifiers-object-kept", tm.B(q is pre.get(f, "qualifiers")))]
+        if "citlist" not in info:
+            out.append(("no-citation-appears", tm.B(st.get(q, "citation") is None)))
+            return out
+        cl = st.get(q, "citation")
+        out.append(("same-list-object", tm.B(cl is info["citlist"])))
+        out.append(("same-number-of-entries", tm.eq(st.get(cl, "length").t, pre.get(cl, "length").t)))
+        rep = st.get(cl, "rep")
+        if "text" in info:
+            ok = isinstance(rep, VObj) and rep.kind == "Reference"
+            out.append(("every-index-replaced-by-a-reference", tm.B(ok)))
+            if ok:
+                out.append(("the-reference-the-index-denotes",
+                            tm.eq(st.get(rep, "ident").t, tm.seqnth(info["refs"], tm.sub(info["q"], 1)))))
+        else:
+            out.append(("references-left-alone", tm.B(rep is info["rep"])))
+        return out
 
     def result(self, ex, st, a):
         st = st.fork()
         e = rec_entity(st, a["record"])
         if e is None:
-            raise Exception("deref on a record that is not an input")
+            return [(st, NONE)]
         cit, refs = st.ghost["CIT"], st.ghost["REFS"]
         st.ghost["CIT"] = tm.store(cit, e, D(tm.select(cit, e), tm.select(refs, e)))
         return [(st, NONE)]
+
+    def model_terms(self, ex, st, a):
+        info = getattr(self, "info", {})
+        return {k: info[k] for k in ("text", "q", "refs") if k in info}
 
 
 class RefCitations(Contract):
@@ -576,16 +654,47 @@ class RefCitations(Contract):
 
 
 class SaveCitations(Contract):
-    """ASSUMED at this level (trusted_body): returns a copy of the citation qualifiers of every input feature;
-    touches nothing.  Abstractly: a snapshot of CIT."""
+    """returns, for every input feature that has a /citation qualifier, the feature together with a *copy* of its
+    citation list; writes nothing.  Verified on the pointwise model (generic element, generic feature); at call sites:
+    a snapshot of CIT."""
     file, qual = FILE, "AssemblyManager._save_citations"
     props = ("C07", "C10")
-    trusted_body = True
+    variants = ("cited", "uncited")
 
     def setup(self, ex, st, variant):
-        mgr, v, M = mk_manager(ex, st)
+        from pyvc.values import VRepList
+        mgr = VObj("AssemblyManager")
+        self.info = cited_record(ex, st, "rec", "strings" if variant == "cited" else "none")
+        ent = VObj("AbstractModule")
+        st.set_inplace(ent, "record", self.info["record"])
+        st.set_inplace(mgr, "elements", VRepList(ent, tm.V("nelem", INT)))
         init_cells(ex, st)
         return dict(self=mgr)
+
+    def ensures(self, ex, pre, st, a, result):
+        from pyvc.values import VRepList
+        if getattr(self, "info", None) is None or not isinstance(pre.get(a["self"], "elements"), VRepList):
+            return []
+        info = self.info
+        out = [("writes-nothing", tm.B(not st.ghost.get("cit_writes")))]
+        if "citlist" not in info:
+            ok = isinstance(result, (VRepList, VList)) and (isinstance(result, VList) or not getattr(result, "alts", None))
+            out.append(("nothing-saved-for-features-without-citation", tm.B(ok)))
+            return out
+        alts = getattr(result, "alts", None) if isinstance(result, VRepList) else None
+        if not alts or len(alts) != 1:
+            out.append(("one-saved-pair-per-cited-feature", tm.FALSE))
+            return out
+        conds, el, s_el = alts[0]
+        ok = isinstance(el, VTuple) and len(el.items) == 2 and el.items[0] is info["feature"]
+        out.append(("saved-pair-names-the-feature", tm.B(ok)))
+        if ok:
+            cp = el.items[1]
+            out.append(("saved-list-is-a-copy-not-the-list-itself", tm.B(isinstance(cp, VObj) and cp is not info["citlist"])))
+            r0, r1 = s_el.get(cp, "rep"), pre.get(info["citlist"], "rep")
+            out.append(("copy-has-the-same-entries", tm.and_(tm.eq(r0.t, r1.t) if isinstance(r0, VT) and isinstance(r1, VT) else tm.B(r0 is r1),
+                                                             tm.eq(s_el.get(cp, "length").t, pre.get(info["citlist"], "length").t))))
+        return out
 
     def result(self, ex, st, a):
         st = st.fork()
@@ -595,18 +704,35 @@ class SaveCitations(Contract):
 
 
 class RestoreCitations(Contract):
-    """ASSUMED at this level (trusted_body): writes the saved citation qualifiers back, entry by entry.
-    Abstractly: CIT[e] := saved[e] for every input e (the only cells the passes in between can have written)."""
+    """writes every saved citation list back into the list object of its feature (same object, saved entries).
+    Verified on the pointwise model (generic saved pair); at call sites: CIT[e] := saved[e] for every input e."""
     file, qual = FILE, "AssemblyManager._restore_citations"
     props = ("C07", "C10")
-    trusted_body = True
+    variants = ("pairs",)
 
     def setup(self, ex, st, variant):
+        from pyvc import models_cit as MC
+        from pyvc.values import VRepList
         mgr, v, M = mk_manager(ex, st)
         init_cells(ex, st)
-        snap = VObj("CitSnapshot")
-        st.set_inplace(snap, "cit", VT(tm.V("saved", CIT_ARR), "list"))
-        return dict(self=mgr, citations=snap)
+        self.info = cited_record(ex, st, "rec", "references")          # current state: dereferenced
+        saved = MC.mk_citlist(st, VT(tm.V("saved.cit", STR)), tm.V("saved.ncit", INT))
+        self.saved = saved
+        pairs = VRepList(VTuple([self.info["feature"], saved]), tm.V("npairs", INT))
+        return dict(self=mgr, citations=pairs)
+
+    def ensures(self, ex, pre, st, a, result):
+        from pyvc.values import VRepList
+        if not isinstance(a["citations"], VRepList):
+            return []
+        info, saved = self.info, self.saved
+        q = st.get(info["feature"], "qualifiers")
+        cl = st.get(q, "citation")
+        out = [("same-list-object-keeps-its-identity", tm.B(cl is info["citlist"])),
+               ("entries-are-the-saved-entries", tm.and_(tm.B(st.get(cl, "rep") is pre.get(saved, "rep")),
+                                                         tm.eq(st.get(cl, "length").t, pre.get(saved, "length").t))),
+               ("saved-copy-untouched", tm.B(st.fields(saved) == pre.fields(saved)))]
+        return out
 
     def result(self, ex, st, a):
         st = st.fork()
